@@ -65,17 +65,6 @@ inline bool model_set_bitrate(opus_int32 req, int channels, opus_int32& state) {
   return true;
 }
 
-// Class of known finding C05F1 (see c05_budget.cpp): VBR with an explicit bitrate, a 80 or 120 ms
-// packet (coded as 2 x 40 / 2 x 60 ms when the encoder picks SILK-only), and both per-frame limits
-// above 1276 bytes: bitrate*T_frame/8 and (M-1)/2.  durIdx indexes cu::DUR400.
-inline bool f1_class(int vbr, opus_int32 bitrate, int Fs, int durIdx, int M) {
-  if (!vbr || bitrate == OPUS_AUTO || bitrate == OPUS_BITRATE_MAX) return false;
-  if (durIdx != 6 && durIdx != 8) return false;
-  int enc_fs = durIdx == 6 ? Fs / 25 : 3 * Fs / 50;
-  int64_t per_frame = 3 * (int64_t)bitrate / (3 * 8 * (int64_t)Fs / enc_fs);
-  return per_frame > 1276 && (M - 1) / 2 > 1276;
-}
-
 // ---- packet validity -----------------------------------------------------
 struct PktInfo { rfc::Parsed p; rfc::TocInfo t; int samples; };
 // standard framing; returns false when the model rejects the packet
